@@ -36,6 +36,28 @@ type c06Req struct {
 	Path   string `json:"path"`
 	Remote string `json:"remote"`
 	XFP    string `json:"x_forwarded_proto,omitempty"`
+	Trace  bool   `json:"trace_header,omitempty"`
+}
+
+// c06Nest describes the nested, overlapping host patterns of the table: a request for x1.h3.example.com is a
+// candidate for up to three patterns (the literal host, *.h3.example.com, *.example.com) and walks them from the most
+// specific to the least specific one until one of them has a route for its path.
+type c06Nest struct {
+	// Mid[i] says which paths *.h<i>.example.com routes: 0 "/", 1 "/api", 2 "/api" and "/static", 3 "/" and "/api"
+	Mid []int `json:"mid_level_paths"`
+	// General: *.example.com routes "/" (otherwise only /zzz, as always)
+	General bool `json:"general_pattern_routes_root"`
+	// Leaves are literal hosts x<k>.h<i>.example.com routing one sub-path (or "/")
+	Leaves []c06Leaf `json:"literal_hosts,omitempty"`
+	// Ports adds patterns with an explicit port (*.example.com:8443, *.h0.example.com:8443)
+	Ports bool `json:"patterns_with_port"`
+	// Org adds a second domain (*.example.org, *.h0.example.org)
+	Org bool `json:"second_domain"`
+}
+
+type c06Leaf struct {
+	K, I int
+	Path string
 }
 
 type c06Scenario struct {
@@ -47,6 +69,10 @@ type c06Scenario struct {
 	Writer     bool        `json:"writer_replaces_table"`
 	Stick      int         `json:"stick"`
 	BadHost    bool        `json:"table_has_a_route_whose_host_is_not_a_valid_glob"`
+	Nest       c06Nest     `json:"nested_hosts"`
+	Warm       []c06Req    `json:"warm_up_requests_served_one_by_one_before_the_others,omitempty"`
+	Gran       int         `json:"yield_granularity"`
+	NoGlob     bool        `json:"glob_matching_disabled,omitempty"`
 	Tables     []string    `json:"-"`
 	TableTexts []string    `json:"tables,omitempty"`
 	Reqs       int         `json:"requests"`
@@ -66,7 +92,37 @@ func (o c06Outcome) String() string {
 func c06TableText(sc *c06Scenario, v int) string {
 	var b strings.Builder
 	for i := 0; i < sc.GlobHosts; i++ {
-		fmt.Fprintf(&b, "route add g%d *.h%d.example.com/ http://g%d-v%d:80/\n", i, i, i, v)
+		mid := 0
+		if i < len(sc.Nest.Mid) {
+			mid = sc.Nest.Mid[i]
+		}
+		if mid == 0 || mid == 3 {
+			fmt.Fprintf(&b, "route add g%d *.h%d.example.com/ http://g%d-v%d:80/\n", i, i, i, v)
+		}
+		if mid >= 1 {
+			fmt.Fprintf(&b, "route add g%dapi *.h%d.example.com/api http://g%dapi-v%d:80/\n", i, i, i, v)
+		}
+		if mid == 2 {
+			fmt.Fprintf(&b, "route add g%dstatic *.h%d.example.com/static http://g%dstatic-v%d:80/\n", i, i, i, v)
+		}
+	}
+	if sc.Nest.General {
+		fmt.Fprintf(&b, "route add gen *.example.com/ http://gen-v%d:80/\n", v)
+	}
+	for _, l := range sc.Nest.Leaves {
+		tag := strings.NewReplacer("/", "", "2", "two").Replace(l.Path)
+		if tag == "" {
+			tag = "root"
+		}
+		fmt.Fprintf(&b, "route add x%dh%d%s x%d.h%d.example.com%s http://x%dh%d%s-v%d:80/\n", l.K, l.I, tag, l.K, l.I, l.Path, l.K, l.I, tag, v)
+	}
+	if sc.Nest.Ports {
+		fmt.Fprintf(&b, "route add genp *.example.com:8443/ http://genp-v%d:80/\n", v)
+		fmt.Fprintf(&b, "route add gpapi *.h0.example.com:8443/api http://gpapi-v%d:80/\n", v)
+	}
+	if sc.Nest.Org {
+		fmt.Fprintf(&b, "route add orgen *.example.org/ http://orgen-v%d:80/\n", v)
+		fmt.Fprintf(&b, "route add orgapi *.h0.example.org/api http://orgapi-v%d:80/\n", v)
 	}
 	for i, w := range sc.Weights {
 		if w == "" {
@@ -114,11 +170,93 @@ func c06Gen(g *simcore.Tape, thorough bool) *c06Scenario {
 	if thorough {
 		ntasks = g.Range(2, 6)
 	}
-	kinds := []string{"w", "w", "e", "rd", "rd", "glob", "glob", "rh", "acl", "none", "rhost", "rhost", "rhp"}
-	// hot mode: every task hammers one multi-target route so that the ring wraps under contention
+	// nested overlapping host patterns: the more specific ones often route only sub-paths, so that a lookup has to
+	// walk on to a less specific candidate (or to the routes without host)
+	for i := 0; i < sc.GlobHosts; i++ {
+		sc.Nest.Mid = append(sc.Nest.Mid, g.Intn(4))
+	}
+	sc.Nest.General = g.Chance(65)
+	for n := g.Intn(4); n > 0; n-- {
+		l := c06Leaf{K: g.Intn(3), I: g.Intn(sc.GlobHosts), Path: simcore.Pick(g, []string{"/api/v2", "/static", "/", "/api"})}
+		dup := false
+		for _, o := range sc.Nest.Leaves {
+			dup = dup || o == l
+		}
+		if !dup {
+			sc.Nest.Leaves = append(sc.Nest.Leaves, l)
+		}
+	}
+	sc.Nest.Ports = g.Chance(30)
+	sc.Nest.Org = g.Chance(40)
+
+	kinds := []string{"w", "w", "e", "rd", "rd", "glob", "glob", "rh", "acl", "none", "rhost", "rhost", "rhp", "nest", "nest", "nest", "nest"}
+	// hot mode: every task hammers one multi-target route so that the ring wraps under contention, or one family of
+	// hosts so that the lookups walk their candidate lists side by side
 	hot := ""
-	if g.Chance(35) {
-		hot = simcore.Pick(g, []string{"e", "w", "rhost", "rd", "glob", "glob"})
+	if g.Chance(45) {
+		hot = simcore.Pick(g, []string{"e", "w", "rhost", "rd", "glob", "glob", "nest", "nest", "nest"})
+	}
+	gen := func(hot string) c06Req {
+		rq := c06Req{Kind: simcore.Pick(g, kinds), Remote: "10.1.2.3:4000"}
+		if hot != "" && g.Chance(85) {
+			rq.Kind = hot
+		}
+		switch rq.Kind {
+		case "w":
+			rq.Path = "/w"
+		case "e":
+			rq.Path = "/e/x"
+		case "rd":
+			rq.Path = fmt.Sprintf("/rd/p%d", g.Intn(5))
+		case "glob":
+			rq.Host = fmt.Sprintf("x%d.h%d.example.com", g.Intn(3), g.Intn(sc.GlobHosts))
+			rq.Path = "/"
+		case "nest":
+			// a host below one, two or three of the nested patterns and a path that the specific ones may not route
+			dom := "example.com"
+			if sc.Nest.Org && g.Chance(30) {
+				dom = "example.org"
+			}
+			switch g.Intn(4) {
+			case 0, 1:
+				rq.Host = fmt.Sprintf("x%d.h%d.%s", g.Intn(3), g.Intn(sc.GlobHosts), dom)
+			case 2:
+				rq.Host = fmt.Sprintf("y%d.%s", g.Intn(2), dom)
+			case 3:
+				rq.Host = fmt.Sprintf("a.x%d.h%d.%s", g.Intn(3), g.Intn(sc.GlobHosts), dom)
+			}
+			switch g.Intn(6) {
+			case 1:
+				rq.Host += ":80" // the default port is not part of the host
+			case 2:
+				if sc.Nest.Ports {
+					rq.Host += ":8443"
+				}
+			}
+			rq.Path = simcore.Pick(g, []string{"/other", "/", "/api/a", "/api/v2/b", "/static/s", "/w", "/e/x", "/rd/p0", "/acl", "/zzz/q"})
+		case "rh":
+			rq.Host = "old.example.com"
+			rq.Path = fmt.Sprintf("/q%d", g.Intn(5))
+		case "rhost":
+			rq.Host = fmt.Sprintf("t%d.multi.example.com", g.Intn(4))
+			rq.Path = simcore.Pick(g, []string{"/", "/login", "/x"})
+			if g.Chance(30) {
+				rq.XFP = "https"
+			}
+		case "rhp":
+			rq.Host = fmt.Sprintf("u%d.hp.example.com", g.Intn(3))
+			rq.Path = fmt.Sprintf("/p%d", g.Intn(3))
+		case "acl":
+			rq.Path = "/acl"
+			if g.Bool() {
+				rq.Remote = "192.168.0.9:555"
+			}
+		case "none":
+			rq.Path = "/nothing"
+		}
+		rq.Trace = g.Chance(8)
+		sc.Reqs++
+		return rq
 	}
 	for t := 0; t < ntasks; t++ {
 		n := g.Range(1, 3)
@@ -127,45 +265,21 @@ func c06Gen(g *simcore.Tape, thorough bool) *c06Scenario {
 		}
 		var reqs []c06Req
 		for k := 0; k < n; k++ {
-			rq := c06Req{Kind: simcore.Pick(g, kinds), Remote: "10.1.2.3:4000"}
-			if hot != "" && g.Chance(85) {
-				rq.Kind = hot
-			}
-			switch rq.Kind {
-			case "w":
-				rq.Path = "/w"
-			case "e":
-				rq.Path = "/e/x"
-			case "rd":
-				rq.Path = fmt.Sprintf("/rd/p%d", g.Intn(5))
-			case "glob":
-				rq.Host = fmt.Sprintf("x%d.h%d.example.com", g.Intn(3), g.Intn(sc.GlobHosts))
-				rq.Path = "/"
-			case "rh":
-				rq.Host = "old.example.com"
-				rq.Path = fmt.Sprintf("/q%d", g.Intn(5))
-			case "rhost":
-				rq.Host = fmt.Sprintf("t%d.multi.example.com", g.Intn(4))
-				rq.Path = simcore.Pick(g, []string{"/", "/login", "/x"})
-				if g.Chance(30) {
-					rq.XFP = "https"
-				}
-			case "rhp":
-				rq.Host = fmt.Sprintf("u%d.hp.example.com", g.Intn(3))
-				rq.Path = fmt.Sprintf("/p%d", g.Intn(3))
-			case "acl":
-				rq.Path = "/acl"
-				if g.Bool() {
-					rq.Remote = "192.168.0.9:555"
-				}
-			case "none":
-				rq.Path = "/nothing"
-			}
-			reqs = append(reqs, rq)
-			sc.Reqs++
+			reqs = append(reqs, gen(hot))
 		}
 		sc.Tasks = append(sc.Tasks, reqs)
 	}
+	// requests the process has served before the concurrent ones arrive (one after the other): whatever fabio recycles
+	// between requests (pooled buffers, cached patterns) has been used and grown by them
+	for n := g.Intn(4); n > 0; n-- {
+		sc.Warm = append(sc.Warm, gen("nest"))
+	}
+	// which functions have live yield sites: 0 every statement of route, proxy and main; 1 only the walk over the
+	// candidate hosts (Table.Lookup, Table.lookup, the picker, the Lookup closure): collecting the candidates, the
+	// glob cache, building a redirect are single steps; 2 route without the host-normalising helpers and the glob
+	// cache; 3 the handler (ServeHTTP, the Lookup closure, Table.Lookup): a whole route lookup per host is a step
+	sc.Gran = []int{0, 1, 1, 2, 3}[g.Intn(5)]
+	sc.NoGlob = g.Chance(10)
 	sc.Writer = g.Chance(30)
 	sc.BadHost = g.Chance(25)
 	sc.Stick = []int{1, 1, 3, 8}[g.Intn(4)]
@@ -187,6 +301,9 @@ func c06Serve(p *proxy.HTTPProxy, rq c06Req) c06Outcome {
 		req.Host = "none.example.net"
 	}
 	req.RemoteAddr = rq.Remote
+	if rq.Trace {
+		req.Header.Set("trace", "zz")
+	}
 	if rq.XFP != "" {
 		req.Header.Set("X-Forwarded-Proto", rq.XFP)
 	}
@@ -201,6 +318,7 @@ func c06Config(sc *c06Scenario) *config.Config {
 	cfg.Proxy.Matcher = "prefix"
 	cfg.Proxy.NoRouteStatus = 404
 	cfg.GlobCacheSize = sc.CacheSize
+	cfg.GlobMatchingDisabled = sc.NoGlob
 	return cfg
 }
 
@@ -248,7 +366,7 @@ func runC06(r *simcore.Run) {
 	d.TraceTasks = false
 	d.Sim.Spawn("reference", func() {
 		for v := 0; v < nver; v++ {
-			for _, reqs := range sc.Tasks {
+			for _, reqs := range append([][]c06Req{sc.Warm}, sc.Tasks...) {
 				for _, rq := range reqs {
 					if _, ok := expect[v][rq]; ok {
 						continue
@@ -259,7 +377,7 @@ func runC06(r *simcore.Run) {
 					gc := route.NewGlobCache(1000)
 					pp := &proxy.HTTPProxy{Config: cfg.Proxy, Transport: c06Stub{}, Stats: *stats,
 						Lookup: func(req *http.Request) *route.Target {
-							return private.Lookup(req, "", route.Picker["rr"], route.Matcher["prefix"], gc, false)
+							return private.Lookup(req, "", route.Picker["rr"], route.Matcher["prefix"], gc, sc.NoGlob)
 						}}
 					expect[v][rq] = c06Serve(pp, rq)
 				}
@@ -276,14 +394,57 @@ func runC06(r *simcore.Run) {
 		d.Finish()
 		return
 	}
-	d.TraceTasks = true
 	r.SetSample(sc)
 
-	d.Sim.Activate("route", "proxy", "main")
 	route.SetTable(tables[0])
 	p := newHTTPProxy(c06Config(sc), stats)
 	p.Transport = c06Stub{}
 	p.InsecureTransport = c06Stub{}
+
+	// stuck reports what is left when the driver has nothing to release any more
+	stuck := func(what string) {
+		// nothing is enabled any more: if every remaining task waits for a lock, lookups are stuck for good
+		states := d.Sim.TaskStates()
+		stuck := len(states) > 0
+		for _, st := range states {
+			if !strings.Contains(st, " lock-wait ") {
+				stuck = false
+			}
+		}
+		if stuck && len(d.Events()) == 0 {
+			r.Fail("lookup-stuck", "lock-never-released", "lookups wait forever for a lock nobody will release: %v", states)
+		} else {
+			r.Trouble("%s did not finish: %v", what, states)
+		}
+	}
+
+	// warm-up: requests served one after the other before the concurrent ones arrive (a single step: no yield site is
+	// active yet). They are requests like any other: checked by (1), counted in (2).
+	warm := make([]c06Outcome, 0, len(sc.Warm))
+	if len(sc.Warm) > 0 {
+		d.Sim.Spawn("warm", func() {
+			for _, rq := range sc.Warm {
+				warm = append(warm, c06Serve(p, rq))
+			}
+		})
+		if !d.Run(1000, func() bool { return d.Sim.Pending() == 0 }) {
+			stuck("the warm-up requests")
+			d.Finish()
+			return
+		}
+	}
+	d.TraceTasks = true
+
+	switch sc.Gran {
+	case 1:
+		d.Sim.Activate("route:Table.Lookup", "route:Table.lookup", "route:rrPicker", "main:newHTTPProxy.func")
+	case 2:
+		d.Sim.Activate("route", "-route:*GlobCache", "-route:ReverseHostPort", "-route:sortHostsReverseHostPort", "-route:normalizeHost")
+	case 3:
+		d.Sim.Activate("proxy:*HTTPProxy.ServeHTTP", "main:newHTTPProxy.func", "route:Table.Lookup")
+	default:
+		d.Sim.Activate("route", "proxy", "main")
+	}
 
 	results := make([][]c06Outcome, len(sc.Tasks))
 	inPick := 0
@@ -317,19 +478,7 @@ func runC06(r *simcore.Run) {
 	}
 	done := d.Run(200000, func() bool { return d.Sim.Pending() == 0 })
 	if !done {
-		// nothing is enabled any more: if every remaining task waits for a lock, lookups are stuck for good
-		states := d.Sim.TaskStates()
-		stuck := len(states) > 0
-		for _, st := range states {
-			if !strings.Contains(st, " lock-wait ") {
-				stuck = false
-			}
-		}
-		if stuck && len(d.Events()) == 0 {
-			r.Fail("lookup-stuck", "lock-never-released", "lookups wait forever for a lock nobody will release: %v", states)
-		} else {
-			r.Trouble("tasks did not finish: %v", states)
-		}
+		stuck("tasks")
 	}
 	d.Invariant()
 	if len(caches) != 1 {
@@ -338,13 +487,17 @@ func runC06(r *simcore.Run) {
 
 	// (1) request locality
 	picks := map[string]map[string]int{} // "route/version" -> upstream -> count
-	for i, reqs := range sc.Tasks {
+	for i, reqs := range append([][]c06Req{sc.Warm}, sc.Tasks...) {
+		res, who := warm, "warm"
+		if i > 0 {
+			res, who = results[i-1], fmt.Sprintf("req%d", i-1)
+		}
 		for k, rq := range reqs {
-			if k >= len(results[i]) {
+			if k >= len(res) {
 				continue // the task panicked; recorded by the panic handler
 			}
-			got := results[i][k]
-			r.Tracef("req%d.%d %s %s%s -> %s", i, k, rq.Kind, rq.Host, rq.Path, got)
+			got := res[k]
+			r.Tracef("%s.%d %s %s%s -> %s", who, k, rq.Kind, rq.Host, rq.Path, got)
 			okAny := false
 			var want c06Outcome
 			for v := 0; v < nver; v++ {
